@@ -1,1 +1,43 @@
-fn main() {}
+//! mon_state: the C03 monitor (parser-state combinators). Depends on `pest` only, so it can be
+//! built with and without pest's `memchr` feature; the shard/report plumbing of `vmon` is
+//! included textually (it needs nothing but std and serde_json).
+//!
+//!   mon_state c03 --shard I --nshards N --seed S --tier quick|thorough --out F --journal J
+//!                 --known K --max-s T --scale X [--replay FILE]
+
+#[allow(dead_code)]
+#[path = "../../vmon/src/rng.rs"]
+mod rng;
+#[allow(dead_code)]
+#[path = "../../vmon/src/shard.rs"]
+mod shard;
+
+mod c03;
+mod c03_gen;
+mod c03_model;
+mod c03_prog;
+mod c03_real;
+
+fn main() {
+    let argv: Vec<String> = std::env::args().collect();
+    let args = shard::Args::parse(&argv);
+    // Panics of the code under observation are observations; keep stderr quiet.
+    std::panic::set_hook(Box::new(|_| {}));
+    let work = move || match args.prop.as_str() {
+        "c03" => c03::run(&args),
+        other => {
+            eprintln!("unknown sub-command {other:?} (expected c03)");
+            std::process::exit(3);
+        }
+    };
+    // Recursive descent depth is program dependent (bounded here: trees of depth <= 6), the
+    // 1 GiB stack is the harness-wide convention. Miri gets an ordinary thread.
+    let mut b = std::thread::Builder::new();
+    if !cfg!(miri) {
+        b = b.stack_size(1 << 30);
+    }
+    if b.spawn(work).expect("spawn worker").join().is_err() {
+        eprintln!("mon_state: worker thread panicked (harness error)");
+        std::process::exit(4);
+    }
+}
